@@ -362,7 +362,7 @@ func compiled(repo, dir string, seed uint64, tier string) error {
 			}
 			for _, t := range strings.Fields(ask(fmt.Sprintf("TK u%d/%d", u.idx, i))[0]) {
 				p := strings.Split(t, ",")
-				tdks = append(tdks, tdKey{vl.UnHex(p[0]), vl.UnHex(p[1]), p[2] == "1"})
+				tdks = append(tdks, tdKey{vl.UnHex(p[0]), vl.UnHex(p[1]), p[2] == "1", p[3] == "1"})
 			}
 		}
 		ex := func(op string) (string, string) {
